@@ -697,6 +697,23 @@ def a4(ctx: Ctx):
                             guarded = crossed_loop is None
                             if guarded:
                                 break
+                    # counted: `[stack.pop() for _ in range(n)]` / `for _ in range(n): stack.pop()` with n capped by the
+                    # stack's own length - `min(..., len(stack))`, directly or through a local bound once
+                    rng = None
+                    if isinstance(p, (ast.ListComp, ast.GeneratorExp)) and p.generators and x is p.elt:
+                        rng = p.generators[0].iter
+                    elif isinstance(p, ast.For) and x in p.body and crossed_loop is p:
+                        rng = p.iter
+                    if rng is not None and isinstance(rng, ast.Call) and call_name(rng) == "range" and len(rng.args) == 1:
+                        from .pyast import resolve_alias as _ra4
+
+                        n_ = _ra4(fn, rng.args[0])
+                        if isinstance(n_, ast.Call) and call_name(n_) == "min" and any(unparse(a_).replace(" ", "") == f"len({stack})" for a_ in n_.args):
+                            # nothing else pops / clears the stack inside the counted loop
+                            others = [c2 for c2 in ast.walk(p) if isinstance(c2, ast.Call) and isinstance(c2.func, ast.Attribute) and c2.func.attr in ("pop", "clear", "remove") and unparse(c2.func.value) == stack and c2 is not c]
+                            if not others:
+                                guarded = True
+                                break
                     if isinstance(p, ast.Try):
                         guarded = any(h.type is None or "IndexError" in unparse(h.type) or unparse(h.type) == "Exception" for h in p.handlers) and x in p.body
                         if guarded:
